@@ -1847,12 +1847,33 @@ def replay(ctx, data):
     want = r.get("check")
 
     def verdict(fails):
-        hit = [f for f in fails if want is None or f["check"] == want] or fails
-        for f in fails:
+        hit = [f for f in fails if want is None or f["check"] == want]
+        for f in hit:
             print(f"still failing: [{f['check']}] form={f['form']}: {f['msg']}")
-        if not fails:
-            print("no check fails for this entry any more")
+        for f in fails:
+            if f not in hit:
+                print(f"(other failing check of this entry: [{f['check']}] form={f['form']}: {f['msg']})")
+        if not hit:
+            print(f"check {want!r} no longer fails for this entry")
         return 1 if hit else 0
+
+    def listed():
+        nm, sysname = r["name"], r.get("system")
+        if kind == "state":
+            return nm in dict(state_catalogue()).get(sysname, [])
+        if kind == "povm":
+            return nm in dict(povm_catalogue()).get(sysname, [])
+        if kind == "mprocess":
+            return nm in mprocess_names()
+        if kind == "ensemble":
+            return nm in ET.get_state_ensemble_names()
+        if sysname == "2qutrit":
+            return nm == "identity" or nm in GT.get_gate_names_2qutrit()
+        return any(s == sysname and n == nm for s, n, _ in gate_catalogue_small())
+
+    if kind in ("state", "povm", "mprocess", "ensemble", "gate", "lindbladian") and not listed():
+        print(f"{r['name']!r} is not listed in the {kind} catalogue of {r.get('system')} (any more): nothing to check")
+        return 0
 
     if kind in ("state", "povm", "mprocess", "ensemble"):
         res = run_task((kind, r.get("system"), r["name"], r.get("ids"), True))
